@@ -17,7 +17,7 @@ import numpy as np
 
 from .. import universe as U
 from ..core import guarded
-from ..project import NVERT
+from ..project import NVERT, exact_int
 from ..tags_common import common_scale, mesh_am, mesh_checksums, points_enc, quiet, kind_of
 
 RULE = ('scenario = an initial mesh (integer / dyadic coordinates) with named sub-domains and boundaries and a '
@@ -100,6 +100,7 @@ def apply_step(m, st):
         ck = mesh_checksums(o)
         r = (o + m) if st.get('swap') else (m + o)
         par['_cko'] = (ck, mesh_checksums(o))
+        par['self'] = 2 if st.get('swap') else 1
         return ([o, m] if st.get('swap') else [m, o]), [r], par, r
     if op == 'matmul':
         o = make_mesh(st['other'])
@@ -135,6 +136,7 @@ def apply_step(m, st):
             first, second = o, m
         elif st.get('swap'):
             first, second = o, m
+        par['self'] = 1 if first is m else 2
         return [first, second], [r], par, r
     if op == 'scaled':
         f = st['f']
@@ -277,7 +279,7 @@ def execute(rec):
     for it in raw:
         st = it['st']
         ev = {'a': 'Op', 'op': it['op'], 'err': it['err'], 'tags': {'op': it['op']}, 'pre': [], 'post': [],
-              'par': dict(NOPAR), 'ck_pre': [], 'ck_post': [], 'scale': int(scale or 0)}
+              'par': dict(NOPAR), 'ck_pre': [], 'ck_post': [], 'scale': int(scale or 0), 'self': 1}
         events.append(ev)
         if it['err']:
             continue
@@ -294,6 +296,9 @@ def execute(rec):
             # operands after the call: the chain's current mesh is the same object, further operands are rebuilt
             ev['ck_pre'] = [it['ck_self']] + ([par['_cko'][0]] if '_cko' in par else [])
             ev['ck_post'] = [mesh_checksums(it['cur'])] + ([par['_cko'][1]] if '_cko' in par else [])
+            if par.get('self') == 2:
+                ev['ck_pre'].reverse()
+                ev['ck_post'].reverse()
         P = ev['par']
         for k in ('elements',):
             if k in par:
@@ -305,12 +310,20 @@ def execute(rec):
                 P[k] = par[k]
         if 'xmap' in par:
             P['xmap'] = [int(x) + 1 for x in np.asarray(par['xmap'])]
+        exact = True
         if 'd_raw' in par:
-            P['d'] = [int(round(float(x) * scale)) for x in par['d_raw']]
+            P['d'] = [exact_int(x, scale) for x in par['d_raw']]
+            exact = exact and None not in P['d']
         if 'b_raw' in par:
-            P['b'] = [int(round(float(x) * scale)) for x in par['b_raw']]
+            P['b'] = [exact_int(x, scale) for x in par['b_raw']]
+            exact = exact and None not in P['b']
         if 'c_raw' in par:
-            P['c'] = int(round(float(par['c_raw']) * scale))
+            P['c'] = exact_int(par['c_raw'], 2 * scale)          # TWICE the plane's coordinate (2c - x is the image)
+            exact = exact and P['c'] is not None
+        if 'self' in par:
+            ev['self'] = par['self']
+        if not exact:
+            ev['op'], ev['skipped'], ev['par'] = 'setup', 1, dict(NOPAR)
     return events
 
 
@@ -650,7 +663,7 @@ def generate(tier, seed):
         if kind == 'line' or nt > 8:
             continue
         subsets = [s for r in range(1, nt) for s in itertools.combinations(range(nt), r)]
-        k = 40 if thorough else 5
+        k = 60 if thorough else 6
         if len(subsets) > k:
             subsets = [subsets[j] for j in rng.choice(len(subsets), k, replace=False)]
         for s in subsets:
@@ -665,14 +678,14 @@ def generate(tier, seed):
                'to_meshtet', 'extrude', 'scaled', 'translated', 'mirrored', 'morphed', 'oriented', 'trace']
     for (kind, p, t) in specs:
         for op in singles:
-            for rep in range(3 if thorough else 1):
+            for rep in range(6 if thorough else 1):
                 spec = _tagged_spec(kind, p, t, rng)
                 r = compose(spec, rng, 1, allow=[op])
                 if r['steps']:
                     r['family'] = 'single'
                     recs.append(r)
     # (3) random compositions interleaved with refinement
-    ncomp = 900 if thorough else 90
+    ncomp = 2500 if thorough else 260
     for j in range(ncomp):
         kind, p, t = specs[int(rng.integers(len(specs)))]
         spec = _tagged_spec(kind, p, t, rng, oriented=(j % 3 == 0))
@@ -680,6 +693,13 @@ def generate(tier, seed):
         if r['steps']:
             r['family'] = 'composition'
             recs.append(r)
+    # (5) extrusion along a line mesh with several components (the product of the operands has a gap)
+    gl = _mesh_spec('line', [[0., 1., 3., 4.]], [[0, 2], [1, 3]])
+    p, t = U.tri_lattice(1, 1, (0,))
+    recs.append({'driver': 'surgery', 'mesh': _mesh_spec('tri', p, t), 'steps': [{'op': 'extrude', 'other': gl}],
+                 'family': 'extrude-gappy'})
+    recs.append({'driver': 'surgery', 'mesh': gl, 'steps': [{'op': 'extrude', 'other': _mesh_spec('line', [[0., 2.]], [[0], [1]])}],
+                 'family': 'extrude-gappy'})
     # (4) tagged valid meshes whose vertices are not in coordinate order: remove_duplicate_nodes renumbers them
     for (kind, p, t) in specs[::3]:
         if kind in ('line',):
